@@ -66,6 +66,7 @@ package failsafe
 //@   requires execWellFormed(e) && !held(e.mtx)
 //@   requires [C08.cancel_atomic] e.cancelFunc != nil && uf("ctxof", e.cancelFunc) == e.ctx
 //@   beforecall e.cancelFunc: assert [C08.cancel.context_cancelled_inside_the_critical_section+C15.cancel.context_cancelled_inside_the_critical_section] held(e.mtx)
+//@   beforecall e.cancelFunc: assert [C14.cancel.result_is_recorded_before_the_context_is_cancelled+C08.cancel.result_is_recorded_before_the_context_is_cancelled] cellof(e.canceledResult, *common.PolicyResult) == result && (result != nil ==> e.lastResult == result.Result && e.lastError == result.Error)
 //@   let was := ret(e.ctx.Err, 1) != nil
 //@   ensures [C08.cancel.records+C15.cancel.records_latest+C09.cancel_reaches_the_attempt] !was ==> canceled(e.ctx) && cellof(e.canceledResult, *common.PolicyResult) == result
 //@   ensures [C08.cancel.last_result] !was && result != nil ==> e.lastResult == result.Result && e.lastError == result.Error
@@ -149,7 +150,7 @@ package failsafe
 //@   requires execWellFormed(e) && !held(e.mtx)
 //@   let c := asref(result_0, *execution)
 //@   ensures [C14.copy_is_private] asref(result_0, *execution).copied
-//@   ensures [C17.copywithresult] typeis(result_0, *execution) && fresh(c) && c.attempts == e.attempts && c.executions == e.executions && c.retries == e.retries && c.hedges == e.hedges && c.ctx == e.ctx && (result != nil ==> c.lastResult == result.Result && c.lastError == result.Error)
+//@   ensures [C17.copywithresult] typeis(result_0, *execution) && fresh(c) && c.attempts == e.attempts && c.executions == e.executions && c.retries == e.retries && c.hedges == e.hedges && c.ctx == e.ctx && c.isHedge == e.isHedge && (result != nil ==> c.lastResult == result.Result && c.lastError == result.Error)
 //@   modifies nothing
 
 //@ func (*execution).CopyForHedge
